@@ -90,7 +90,7 @@ impl Property for C01 {
     fn assumptions(&self) -> Vec<&'static str> {
         vec![
             "allocation failure is out of scope (aborts by design)",
-            "geometries up to 140x40 plus the 132-column DECCOLM switch; API arguments absent or 0..=9999; resize >= 1x1",
+            "geometries up to 140x40 (3 % of the non-small runs up to 300x129) plus the 132-column DECCOLM switch; API arguments absent or 0..=9999; resize >= 1x1",
             "hangs are detected by the parent's 20 s per-run watchdog",
             "built with overflow-checks and debug-assertions on",
         ]
